@@ -37,7 +37,12 @@ pub struct Route {
     /// --input-format value, None = flag absent (auto)
     pub flag: Option<String>,
     pub out_file: bool,
+    /// the -o path already exists and holds a longer, older result (a re-used output path)
+    pub stale_out: bool,
 }
+
+/// what a re-used output path holds before the run: an older, longer result object
+pub const STALE_OUTPUT: &str = "{\"regret\":0.123456789,\"player_one_utility\":1.0,\"player_two_utility\":-1.0,\"player_one_regret\":0.123456789,\"player_two_regret\":0.0,\"player_one_strategy\":{\"an older and much longer infoset name that is not part of this game\":{\"left\":0.25,\"right\":0.75}},\"player_two_strategy\":{\"another older infoset\":{\"x\":1.0}},\"padding\":\"................................................................................................................................................................................................................................................................................................................................................................................................................................................................................................................................................................................................................................................................................................................................................................................................................................................................................................................................................................................................................................................................................................................................................................................................................................................................................................................................................................................................................................................................................................................................................................................................................................................\"}";
 
 impl Route {
     pub fn random(r: &mut Rng, fmt: Format) -> Route {
@@ -53,10 +58,11 @@ impl Route {
             2 => "game".to_string(),
             _ => String::new(),
         };
-        Route { stdin: r.coin(0.4), ext, flag, out_file: r.coin(0.3) }
+        let out_file = r.coin(0.3);
+        Route { stdin: r.coin(0.4), ext, flag, out_file, stale_out: out_file && r.coin(0.5) }
     }
     pub fn to_json(&self) -> Value {
-        json!({"stdin": self.stdin, "ext": self.ext, "flag": self.flag, "out_file": self.out_file})
+        json!({"stdin": self.stdin, "ext": self.ext, "flag": self.flag, "out_file": self.out_file, "stale_out": self.stale_out})
     }
     pub fn from_json(v: &Value) -> Route {
         Route {
@@ -64,6 +70,7 @@ impl Route {
             ext: v["ext"].as_str().unwrap_or("").to_string(),
             flag: v["flag"].as_str().map(|s| s.to_string()),
             out_file: v["out_file"].as_bool().unwrap_or(false),
+            stale_out: v["stale_out"].as_bool().unwrap_or(false),
         }
     }
 }
@@ -179,6 +186,10 @@ pub struct ProcOut {
     pub out_file: Option<Vec<u8>>,
     pub report: Option<Value>,
     pub timed_out: bool,
+    /// a pre-existing -o file was still there, byte for byte, after the run
+    pub stale_out_left_untouched: bool,
+    /// the -o path existed (with older, longer content) before the run
+    pub stale_out: bool,
 }
 
 pub fn simcli_path() -> PathBuf {
@@ -238,6 +249,9 @@ pub fn run_simcli(bytes: &[u8], route: &Route, opts: &Opts, env: &SimEnv, extra_
     let out_path = scratch.0.join("result.json");
     if route.out_file {
         cmd.arg("-o").arg(&out_path);
+        if route.stale_out {
+            std::fs::write(&out_path, STALE_OUTPUT).expect("cannot pre-populate the output file");
+        }
     }
     cmd.args(extra_args);
     cmd.stdin(if route.stdin { Stdio::piped() } else { Stdio::null() });
@@ -261,7 +275,10 @@ pub fn run_simcli(bytes: &[u8], route: &Route, opts: &Opts, env: &SimEnv, extra_
         status: output.status.code(),
         stdout: output.stdout,
         stderr,
-        out_file: if route.out_file { std::fs::read(&out_path).ok() } else { None },
+        // an untouched pre-existing file counts as "no file written"
+        out_file: if route.out_file { std::fs::read(&out_path).ok().filter(|b| !(route.stale_out && b == STALE_OUTPUT.as_bytes())) } else { None },
+        stale_out: route.out_file && route.stale_out,
+        stale_out_left_untouched: route.out_file && route.stale_out && std::fs::read(&out_path).ok().map(|b| b == STALE_OUTPUT.as_bytes()).unwrap_or(false),
         report: std::fs::read_to_string(&report).ok().and_then(|s| serde_json::from_str(&s).ok()),
         timed_out: false,
     }
